@@ -239,6 +239,12 @@ var strSegs = []strSeg{
 	{"a", "a"}, {"abc", "abc"}, {"X-Y", "X-Y"}, {" ", " "}, {"^/(.*)$", "^/(.*)$"}, {"\\1", "\\1"}, {"%41", "A"}, {"%7a", "z"}, {"%25", "%"}, {"%22", "\""}, {"%0A", "\n"},
 	{"%u00e9", "é"}, {"%u00E9", "é"}, {"%u{e9}", "é"}, {"%u{1F600}", "😀"}, {"%u{00041}", "A"}, {"é", "é"}, {"日本", "日本"}, {"{", "{"}, {"}", "}"}, {"#", "#"}, {"//", "//"},
 	{"/*", "/*"}, {";", ";"}, {"'", "'"}, {"=", "="}, {",", ","}, {"\t", "\t"}, {"0", "0"}, {"%c3%a9", "é"},
+	// the edges of the code point ranges in each escape form
+	{"%u{10FFFF}", "\U0010FFFF"}, {"%u{10000}", "\U00010000"}, {"%uFFFF", "\uFFFF"}, {"%u{FFFF}", "\uFFFF"}, {"%u0080", "\u0080"}, {"%u07FF", "\u07FF"}, {"%u0800", "\u0800"},
+	{"%uD7FF", "\uD7FF"}, {"%uE000", "\uE000"}, {"%u{1}", "\x01"}, {"%7F", "\x7f"}, {"%01", "\x01"},
+	{"%C2%80", "\u0080"}, {"%DF%BF", "\u07FF"}, {"%E0%A0%80", "\u0800"}, {"%ED%9F%BF", "\uD7FF"}, {"%EE%80%80", "\uE000"}, {"%EF%BF%BF", "\uFFFF"},
+	{"%F0%90%80%80", "\U00010000"}, {"%F3%B0%80%80", "\U000F0000"}, {"%F4%80%80%80", "\U00100000"}, {"%F4%8F%BF%BF", "\U0010FFFF"},
+	{"%EF%BF%BD", "\uFFFD"}, {"%uFFFD", "\uFFFD"}, // the replacement character written out is a character like any other
 }
 
 func (g *G) String() *Atom {
